@@ -66,6 +66,9 @@ func c37bStream(d *Deduplicator, seeds []*big.Int, k int, stamps bool) (trues []
 					// race pass: monotonic clock, no synchronisation, evidence only
 					myCall[j] = int64(time.Since(t0))
 				}
+				if (g+j)%5 == 1 {
+					runtime.Gosched() // inside the stamped interval
+				}
 				myRes[j] = d.NotifyDKGStarted(seeds[j])
 				if stamps {
 					myRet[j] = atomic.AddInt64(&clock, 1)
@@ -99,7 +102,7 @@ func c37bStream(d *Deduplicator, seeds []*big.Int, k int, stamps bool) (trues []
 }
 
 func c37bConcurrent(r *verifkit.Run, stamps bool, streams, perStream int) {
-	ks := []int{2, 4, 16, 16}
+	ks := []int{16, 4, 2, 16}
 	d := NewDeduplicator(nil)
 	used := map[string]bool{}
 	rng := r.Rand("streams")
@@ -148,15 +151,15 @@ func c37bConcurrent(r *verifkit.Run, stamps bool, streams, perStream int) {
 func TestVerif_C37_BeaconConcurrent(t *testing.T) {
 	r := verifkit.Start(t, "C37", "beacon-concurrent")
 	defer r.Finish()
-	r.SetRule("streams of 2000 fresh PRNG DKG seeds, each stream delivered in order by k in {2,4,16,16} goroutines (parallel handlers) that start together on one Deduplicator; per seed exactly one delivery must return true, a later redelivery false. One case = one seed; non-trivial = two of its deliveries overlapped in the observed call/return stamps")
+	r.SetRule("streams of 2000 fresh PRNG DKG seeds, each stream delivered in order by k in {16,4,2,16} goroutines (parallel handlers) that start together on one Deduplicator; per seed exactly one delivery must return true, a later redelivery false. One case = one seed; non-trivial = two of its deliveries overlapped in the observed call/return stamps")
 	c37bConcurrent(r, true, r.N(12, 400), 2000)
 }
 
 func TestVerif_C37_BeaconConcurrentRace(t *testing.T) {
 	r := verifkit.Start(t, "C37", "beacon-concurrent-race")
 	defer r.Finish()
-	r.SetRule("the concurrent streams under the Go race detector, results in per-goroutine slots, start barrier only. non-trivial = two deliveries of the seed overlapped according to the monotonic clock (evidence only)")
-	c37bConcurrent(r, false, r.N(8, 200), 2000)
+	r.SetRule("the concurrent streams (1000 events each) under the Go race detector, results in per-goroutine slots, start barrier only. non-trivial = two deliveries of the seed overlapped according to the monotonic clock (evidence only)")
+	c37bConcurrent(r, false, r.N(3, 200), 1000)
 }
 
 func TestVerif_C37_BeaconDistinct(t *testing.T) {
